@@ -74,6 +74,13 @@ var properties = map[string]Prop{
 		Rule: "grid family: all views over ids {n1,n2} with member incarnation in generation{1,2} x logical clock{1,2,3} (n1 additionally x 2 (quick) / 4 (thorough) status+timestamp variants) or absent, x epoch{0,2} x view timestamp{now, now-10s} x version vector{{}, {n1:1}, {n2:1}}; every ordered pair under each of the 9 merge options (3 concurrent-version strategies x clock skew{off, 1s, 1h}), triples of an evenly spaced subset of about 110 views under each strategy; reachable family: views generated breadth-first by the real join / re-join (generation bump) / status change / version increment / removal / snapshot / merge operations with a ticking virtual clock (depth 3 quick, 5 thorough; capped, cap reported), all pairs x 9 options + triples of a subset. A case is one merge law evaluation on one pair/triple; pairs of different views are the non-trivial ones",
 		Assumptions: []string{"logical clocks are >= 1 (LogicalClock == 0 only arises from foreign wire input and is outside the property's quantifier)", "time.Now is the virtual clock of the instrumented build", "the grid over-approximates the reachable incarnations (generation and logical clock vary independently)"},
 	},
+	"C02": {
+		Parts:       []Part{{Harness: "c02ring"}, {Harness: "c02mb"}, {Harness: "c02ctx"}},
+		Level:       "model_checking",
+		QuickBudget: 200, ThoroughBudget: 1800,
+		Rule: "(a) every sequence over {Push, Pop, PopMany(0,1,2,5)} up to length 8 (10) on ring buffers of initial size 1-4 plus directed growth runs at sizes 5/8/256 with the head at every offset, against a slice; (b) every interleaving up to the preemption bound of 2-3 concurrent senders of numbered user/system series into the real mailbox (ring size 1/2/4): per-sender FIFO, real-time FIFO per queue, system-before-user; (c) every message-level schedule of all Stash/Unstash(n) scripts up to length 5 (6) and of kill-vs-backlog scenarios on the real Context against a list model; distinct_nontrivial = operation sequences + distinct handling orders per scenario",
+		Assumptions: schedAssumptions,
+	},
 	"C05": {
 		Parts:       []Part{{Harness: "c05"}},
 		Level:       "model_checking",
